@@ -5,12 +5,54 @@ import (
 
 	"github.com/aukilabs/go-tooling/pkg/errors"
 	"github.com/aukilabs/hagall-common/messages/dagazpb"
+	"github.com/aukilabs/hagall-common/messages/hagallpb"
 	hwebsocket "github.com/aukilabs/hagall-common/websocket"
 	"github.com/aukilabs/hagall/models"
 	"google.golang.org/protobuf/types/known/timestamppb"
 )
 
 // TODO(jhenriques): Can we remove timestamps from protobuf messages? Dagaz does not use them...
+
+// maxCoordinate bounds, in meters and on each axis, the part of space a session's
+// grid may cover. The grid allocates a cell for every square of its resolution
+// between its corners, so an unbounded coordinate is an unbounded allocation.
+const maxCoordinate = 1000
+
+// validCoordinate reports whether v is a finite coordinate inside the bounds
+// (false for NaN and infinities).
+func validCoordinate(v float32) bool {
+	return v >= -maxCoordinate && v <= maxCoordinate
+}
+
+func validPoint(p *dagazpb.Point) bool {
+	return p != nil && validCoordinate(p.X) && validCoordinate(p.Y) && validCoordinate(p.Z)
+}
+
+// validQuad reports whether a sampled quad carries its center and half-extents,
+// and lies, with non negative half-extents, inside the bounds.
+func validQuad(q *dagazpb.Quad) bool {
+	if q == nil || !validPoint(q.Center) || !validPoint(q.Extents) {
+		return false
+	}
+
+	c, e := q.Center, q.Extents
+	return e.X >= 0 && e.Y >= 0 && e.Z >= 0 &&
+		validCoordinate(c.X-e.X) && validCoordinate(c.X+e.X) &&
+		validCoordinate(c.Z-e.Z) && validCoordinate(c.Z+e.Z)
+}
+
+func isNaNPoint(p *dagazpb.Point) bool {
+	return p.X != p.X || p.Y != p.Y || p.Z != p.Z
+}
+
+func respondBadRequest(respond hwebsocket.ResponseSender, requestID uint32) {
+	respond.Send(&hagallpb.ErrorResponse{
+		Type:      hagallpb.MsgType_MSG_TYPE_ERROR_RESPONSE,
+		Timestamp: timestamppb.Now(),
+		RequestId: requestID,
+		Code:      hagallpb.ErrorCode_ERROR_CODE_BAD_REQUEST,
+	})
+}
 
 type Module struct {
 	currentSession     *models.Session
@@ -67,6 +109,10 @@ func (m *Module) HandleDagazQuadSample(ctx context.Context, msg hwebsocket.Msg) 
 
 	m.state.withSpatialPartition(func(sp SpatialPartition) {
 		for _, newQuad := range newQuadSample.Samples {
+			if !validQuad(newQuad) {
+				continue
+			}
+
 			quad := NewQuadFromProtobuf(newQuad)
 			sp.InsertQuad(quad)
 		}
@@ -86,6 +132,11 @@ func (m *Module) HandleDagazGetGroundPlane(ctx context.Context, respond hwebsock
 		return errors.New("session not joined").
 			WithType(hwebsocket.ErrTypeSessionNotJoined).
 			WithTag("msg_type", msg.Type)
+	}
+
+	if req.Ray == nil || !validPoint(req.Ray.From) || !validPoint(req.Ray.To) {
+		respondBadRequest(respond, req.RequestId)
+		return nil
 	}
 
 	ray := NewRayFromProtobuf(req.Ray)
@@ -125,6 +176,11 @@ func (m *Module) HandleDagazGetRegion(ctx context.Context, respond hwebsocket.Re
 		return errors.New("session not joined").
 			WithType(hwebsocket.ErrTypeSessionNotJoined).
 			WithTag("msg_type", msg.Type)
+	}
+
+	if req.Min == nil || req.Max == nil || isNaNPoint(req.Min) || isNaNPoint(req.Max) {
+		respondBadRequest(respond, req.RequestId)
+		return nil
 	}
 
 	var regionQuadsProtobuf []*dagazpb.Quad
